@@ -69,7 +69,7 @@ def Sizes.headerWords (z : Sizes) (ver : Nat) : List Int :=
 
 def sizesOf (ver : Nat) (deflate : List UInt8 → List UInt8) (items : List Item)
     (datas : List (List UInt8)) : Sizes :=
-  { nTypes := (groupTypes items 0 []).length, nItems := items.length, nData := datas.length,
+  { nTypes := (groupTypes items 0).length, nItems := items.length, nData := datas.length,
     sizeItems := sumNat (items.map (fun it => 8 + 4 * it.data.length)),
     sizeData := sumNat ((if ver = 3 then datas else datas.map deflate).map List.length) }
 
@@ -96,7 +96,7 @@ theorem writer_header_accepted (ver : Nat) (hv : ver = 3 ∨ ver = 4)
     (hmax : (sizesOf ver deflate items datas).total ver ≤ 2147483647) :
     ∃ h, Header.read (writeDf ver deflate items datas) = .ok h
       ∧ h.version = ver ∧ h.numItems = items.length ∧ h.numData = datas.length
-      ∧ h.numItemTypes = (groupTypes items 0 []).length
+      ∧ h.numItemTypes = (groupTypes items 0).length
       ∧ h.checkSizeAndSwaplen
           = .ok { expectedSize := ((sizesOf ver deflate items datas).total ver : Nat), crude := false } := by
   obtain ⟨tail, hfile⟩ := writeDf_eq_header_append ver deflate items datas
@@ -127,7 +127,7 @@ theorem writer_header_accepted (ver : Nat) (hv : ver = 3 ∨ ver = 4)
   have htake : (writeDf ver deflate items datas).take headerSize
       = magicData ++ bytesOfWords (z.headerWords ver) := by
     rw [hfile]; exact List.take_left' hlen
-  have hnt : z.nTypes = (groupTypes items 0 []).length := by rw [← hz]; rfl
+  have hnt : z.nTypes = (groupTypes items 0).length := by rw [← hz]; rfl
   have hni : z.nItems = items.length := by rw [← hz]; rfl
   have hnd : z.nData = datas.length := by rw [← hz]; rfl
   refine ⟨{ magic := magicData, version := (ver : Int), size := ((z.total ver - 16 : Nat) : Int),
@@ -183,5 +183,448 @@ theorem writer_header_accepted (ver : Nat) (hv : ver = 3 ∨ ver = 4)
     congr 2
     simp only [decide_eq_false_iff_not, ne_eq, Decidable.not_not]
     omega
+
+
+
+/-! ### running sums, offsets, windows of a concatenation -/
+
+theorem offsetsFrom_length : ∀ (ls : List Nat) (o : Nat), (offsetsFrom o ls).length = ls.length
+  | [], _ => rfl
+  | l :: ls, o => by simp [offsetsFrom, offsetsFrom_length ls]
+
+theorem offsetsFrom_getElem? : ∀ (ls : List Nat) (o i : Nat), i < ls.length →
+    (offsetsFrom o ls)[i]? = some (o + sumNat (ls.take i))
+  | [], _, _, h => by simp at h
+  | l :: ls, o, 0, _ => by simp [offsetsFrom, sumNat]
+  | l :: ls, o, i + 1, h => by
+    simp only [offsetsFrom, List.getElem?_cons_succ, List.take_succ_cons, sumNat]
+    rw [offsetsFrom_getElem? ls (o + l) i (by simpa using h)]
+    congr 1; omega
+
+theorem sumNat_take_succ : ∀ (ls : List Nat) (i : Nat) (h : i < ls.length),
+    sumNat (ls.take (i + 1)) = sumNat (ls.take i) + ls[i]
+  | [], _, h => by simp at h
+  | l :: ls, 0, _ => by simp [sumNat]
+  | l :: ls, i + 1, h => by
+    simp only [List.take_succ_cons, sumNat, List.getElem_cons_succ]
+    rw [sumNat_take_succ ls i (by simpa using h)]; omega
+
+theorem sumNat_take_le : ∀ (ls : List Nat) (i : Nat), sumNat (ls.take i) ≤ sumNat ls
+  | [], _ => by simp [sumNat]
+  | l :: ls, 0 => by simp [sumNat]
+  | l :: ls, i + 1 => by
+    simp only [List.take_succ_cons, sumNat]; have := sumNat_take_le ls i; omega
+
+theorem sumNat_take_all (ls : List Nat) : sumNat (ls.take ls.length) = sumNat ls := by
+  rw [List.take_length]
+
+theorem sumNat_take_mono (ls : List Nat) {i j : Nat} (h : i ≤ j) :
+    sumNat (ls.take i) ≤ sumNat (ls.take j) := by
+  have : ls.take i = (ls.take j).take i := by rw [List.take_take]; congr 1; omega
+  rw [this]; exact sumNat_take_le _ _
+
+theorem concatBytes_eq_flatten : ∀ L : List (List UInt8), concatBytes L = L.flatten
+  | [] => rfl
+  | l :: L => by simp [concatBytes, concatBytes_eq_flatten L]
+
+/-- the `k`-th piece of a concatenation starts at the sum of the lengths before it -/
+theorem flatten_drop_sum {α : Type} : ∀ (L : List (List α)) (k : Nat) (h : k < L.length),
+    L.flatten.drop (sumNat ((L.take k).map List.length)) = L[k] ++ (L.drop (k + 1)).flatten
+  | [], _, h => by simp at h
+  | l :: L, 0, _ => by simp [sumNat]
+  | l :: L, k + 1, h => by
+    simp only [List.take_succ_cons, List.map_cons, sumNat, List.flatten_cons, List.getElem_cons_succ,
+      List.drop_succ_cons]
+    rw [← List.drop_drop, List.drop_left' rfl]
+    exact flatten_drop_sum L k (by simpa using h)
+
+theorem sumNat_map_length_flatten {α : Type} : ∀ (L : List (List α)),
+    L.flatten.length = sumNat (L.map List.length)
+  | [] => rfl
+  | l :: L => by simp [sumNat, sumNat_map_length_flatten L]
+
+
+
+/-! ### the four blocks of `check` succeed on tables described by functions -/
+
+theorem checkItems_ok_of (r : Reader) (N : Nat) (off : Nat → Nat) (hd sz : Nat → Int)
+    (hsi : 0 ≤ r.sizeItems)
+    (hoff : ∀ k, k < N → r.itemOffsets[k]? = some (off k : Int))
+    (hhdr : ∀ k, k < N → r.itemHeader k = .ok (hd k, sz k))
+    (hsz : ∀ k, k < N → 0 ≤ sz k ∧ (sz k).toNat % 4 = 0)
+    (hnext : ∀ k, k < N → off (k + 1) = off k + 8 + (sz k).toNat)
+    (hle : ∀ k, k ≤ N → off k ≤ off N)
+    (hend : off N = r.sizeItems.toNat) :
+    ∀ n i, i + n = N → checkItems r n i (off i) = .ok () := by
+  intro n
+  induction n with
+  | zero =>
+    intro i hi
+    have : i = N := by omega
+    subst this
+    unfold checkItems
+    rw [asUsize_nonneg hsi, if_neg (by omega)]
+  | succ n ih =>
+    intro i hi
+    have hiN : i < N := by omega
+    unfold checkItems
+    rw [hoff i hiN]
+    simp only
+    have h0 : (0 : Int) ≤ (off i : Int) := by omega
+    rw [if_neg (by omega), asUsize_nonneg h0, asUsize_nonneg hsi]
+    have hl := hle (i + 1) (by omega)
+    have hn := hnext i hiN
+    obtain ⟨hs0, hs4⟩ := hsz i hiN
+    rw [if_neg (by omega), if_neg (by omega), hhdr i hiN]
+    simp only
+    rw [if_neg (by omega), asUsize_nonneg hs0, if_neg (by omega), if_neg (by omega)]
+    rw [← hn]
+    exact ih (i + 1) (by omega)
+
+theorem checkData_ok_of (r : Reader) (N : Nat) (soff : Nat → Nat)
+    (hoff : ∀ k, k < N → r.dataOffsets[k]? = some (soff k : Int))
+    (huds : ∀ k, k < N → udsCheck r k = none)
+    (hmono : ∀ k, k + 1 < N → soff k ≤ soff (k + 1))
+    (hbound : ∀ k, k < N → (soff k : Int) ≤ r.sizeData) :
+    ∀ n i (prev : Int), i + n = N → (i < N → prev ≤ soff i) → checkData r n i prev = .ok () := by
+  intro n
+  induction n with
+  | zero => intro i prev _ _; unfold checkData; rfl
+  | succ n ih =>
+    intro i prev hi hp
+    have hiN : i < N := by omega
+    unfold checkData
+    rw [huds i hiN]
+    simp only
+    rw [hoff i hiN]
+    simp only
+    have := hbound i hiN
+    have := hp hiN
+    rw [if_neg (by omega), if_neg (by omega)]
+    exact ih (i + 1) _ (by omega) (fun h => by have := hmono i h; omega)
+
+theorem checkTypeItems_ok_of (r : Reader) (typeId : Int) (hd sz : Nat → Int) :
+    ∀ n a, (∀ k, a ≤ k → k < a + n → r.itemHeader k = .ok (hd k, sz k)
+        ∧ headerTypeId (hd k) = typeId % 65536) →
+      checkTypeItems r typeId n a = .ok () := by
+  intro n
+  induction n with
+  | zero => intro a _; unfold checkTypeItems; rfl
+  | succ n ih =>
+    intro a h
+    obtain ⟨h1, h2⟩ := h a (by omega) (by omega)
+    unfold checkTypeItems
+    rw [h1]
+    simp only
+    unfold headerTypeId at h2
+    rw [if_neg (by omega)]
+    exact ih (a + 1) (fun k hk1 hk2 => h k (by omega) (by omega))
+
+theorem checkTypeIds_ok_of (r : Reader) (hd sz : Nat → Int) :
+    ∀ ts : List ItemType, (∀ t ∈ ts, 0 ≤ t.start ∧ 0 ≤ t.num ∧ t.start + t.num ≤ 2147483647
+        ∧ ∀ k, t.start.toNat ≤ k → k < t.start.toNat + t.num.toNat →
+            r.itemHeader k = .ok (hd k, sz k) ∧ headerTypeId (hd k) = t.typeId % 65536) →
+      checkTypeIds r ts = .ok () := by
+  intro ts
+  induction ts with
+  | nil => intro _; unfold checkTypeIds; rfl
+  | cons t ts ih =>
+    intro h
+    obtain ⟨h1, h2, h3, h4⟩ := h t (List.mem_cons_self ..)
+    unfold checkTypeIds
+    rw [addI32_some (by omega) (by omega)]
+    simp only
+    rw [asUsize_nonneg (by omega : 0 ≤ t.start + t.num), asUsize_nonneg h1]
+    have : (t.start + t.num).toNat - t.start.toNat = t.num.toNat := by omega
+    rw [this, checkTypeItems_ok_of r t.typeId hd sz _ _ h4]
+    exact ih (fun t' ht' => h t' (List.mem_cons_of_mem _ ht'))
+
+
+/-! ### the type table the writer builds -/
+
+theorem groupTypes_head (it : Item) (rest : List Item) (idx : Nat) :
+    ∃ g gs, groupTypes (it :: rest) idx = g :: gs ∧ g.typeId = it.typeId ∧ g.start = idx := by
+  simp only [groupTypes]
+  split
+  · split
+    · rename_i h; exact ⟨_, _, rfl, h, rfl⟩
+    · exact ⟨_, _, rfl, rfl, rfl⟩
+  · exact ⟨_, _, rfl, rfl, rfl⟩
+
+/-- one step of the first block of `check` -/
+theorem checkTypes_cons_ok_iff (N : Int) (t : ItemType) (ts : List ItemType) (e : Int)
+    (prev : Option Int) (seen : List Int) (he0 : 0 ≤ e) (heN : e ≤ N) (hN : N ≤ 2147483647) :
+    checkTypes N (t :: ts) e prev seen = .ok () ↔
+      (0 ≤ t.typeId ∧ t.typeId < 65536) ∧ notAbovePrev prev t.typeId = false ∧ t.start = e
+        ∧ 0 ≤ t.num ∧ t.num ≤ N - e ∧ seen.contains t.typeId = false
+        ∧ checkTypes N ts (e + t.num) (some t.typeId) (seen ++ [t.typeId]) = .ok () := by
+  constructor
+  · intro h
+    unfold checkTypes at h
+    split at h; · cases h
+    rename_i h1
+    split at h; · cases h
+    rename_i h2
+    split at h; · cases h
+    rename_i h3
+    split at h; · cases h
+    rename_i h4
+    have h3 : t.start = e := by simpa using h3
+    rw [h3, subI32_some (by omega) (by omega)] at h
+    simp only at h
+    split at h; · cases h
+    rename_i h5
+    rw [addI32_some (by omega) (by omega)] at h
+    simp only at h
+    split at h; · cases h
+    rename_i h6
+    exact ⟨by simpa using h1, by simpa using h2, h3, by omega, by omega, by simpa using h6, h⟩
+  · rintro ⟨h1, h2, h3, h4, h5, h6, h7⟩
+    unfold checkTypes
+    rw [if_neg (by simp; omega), h2]
+    simp only [Bool.false_eq_true, if_false]
+    rw [if_neg (by simp [h3]), if_neg (by omega), h3, subI32_some (by omega) (by omega)]
+    simp only
+    rw [if_neg (by omega), addI32_some (by omega) (by omega)]
+    simp only
+    rw [h6]
+    simpa using h7
+
+
+theorem contains_false_of_lt {seen : List Int} {v : Int} (h : ∀ s ∈ seen, s < v) :
+    seen.contains v = false := by
+  apply Bool.eq_false_iff.2
+  intro hc
+  have := List.contains_iff_mem.1 hc
+  have := h v this
+  omega
+
+theorem notAbovePrev_false {prev : Option Int} {v : Int} (h : ∀ p, prev = some p → p < v) :
+    notAbovePrev prev v = false := by
+  unfold notAbovePrev
+  split
+  · rename_i p; have := h p rfl; simp; omega
+  · rfl
+
+/-- the first block of `check` accepts the writer's type table -/
+theorem checkTypes_groupTypes (N : Nat) (hN : N ≤ 2147483647) :
+    ∀ (items : List Item) (idx : Nat) (prev : Option Int) (seen : List Int),
+      items.Pairwise (fun a b => a.typeId ≤ b.typeId) → (∀ it ∈ items, it.typeId < 65536) →
+      N = idx + items.length →
+      (∀ p, prev = some p → ∀ it ∈ items, p < (it.typeId : Int)) →
+      (∀ s ∈ seen, ∀ it ∈ items, s < (it.typeId : Int)) →
+      checkTypes (N : Int) (groupTypes items idx) (idx : Int) prev seen = .ok () := by
+  intro items
+  induction items with
+  | nil =>
+    intro idx prev seen _ _ hlen _ _
+    simp only [groupTypes, checkTypes]
+    rw [if_neg (by simp at hlen; omega)]
+  | cons it rest ih =>
+    intro idx prev seen hsort h16 hlen hprev hseen
+    have hlen' : N = (idx + 1) + rest.length := by simp at hlen; omega
+    have hsort' := (List.pairwise_cons.1 hsort).2
+    have hhead := (List.pairwise_cons.1 hsort).1
+    have h16' : ∀ it' ∈ rest, it'.typeId < 65536 := fun it' h => h16 it' (List.mem_cons_of_mem _ h)
+    have htid := h16 it (List.mem_cons_self ..)
+    have hnp : notAbovePrev prev (it.typeId : Int) = false :=
+      notAbovePrev_false (fun p hp => hprev p hp it (List.mem_cons_self ..))
+    have hsc : seen.contains (it.typeId : Int) = false :=
+      contains_false_of_lt (fun s hs => hseen s hs it (List.mem_cons_self ..))
+    simp only [groupTypes]
+    cases hG : groupTypes rest (idx + 1) with
+    | nil =>
+      have hrest : rest = [] := by
+        cases rest with
+        | nil => rfl
+        | cons r0 rest' =>
+          obtain ⟨g, gs, hg, _⟩ := groupTypes_head r0 rest' (idx + 1)
+          rw [hg] at hG; cases hG
+      subst hrest
+      simp only
+      rw [checkTypes_cons_ok_iff _ _ _ _ _ _ (by omega) (by omega) (by omega)]
+      refine ⟨⟨by simp, by simp; omega⟩, hnp, rfl, by simp, by simp at hlen ⊢; omega, hsc, ?_⟩
+      simp only [checkTypes]
+      rw [if_neg (by simp at hlen ⊢; omega)]
+    | cons g gs =>
+      obtain ⟨r0, rest', hr⟩ : ∃ r0 rest', rest = r0 :: rest' := by
+        cases rest with
+        | nil => simp [groupTypes] at hG
+        | cons r0 rest' => exact ⟨r0, rest', rfl⟩
+      obtain ⟨g', gs', hg', hgt, hgs⟩ := groupTypes_head r0 rest' (idx + 1)
+      rw [← hr, hG] at hg'
+      cases hg'
+      simp only
+      by_cases hsame : g.typeId = (it.typeId : Int)
+      · rw [if_pos hsame]
+        have := ih (idx + 1) prev seen hsort' h16' hlen'
+          (fun p hp it' h' => hprev p hp it' (List.mem_cons_of_mem _ h'))
+          (fun s hs it' h' => hseen s hs it' (List.mem_cons_of_mem _ h'))
+        rw [hG] at this
+        have hcast : ((idx + 1 : Nat) : Int) = (idx : Int) + 1 := by omega
+        rw [hcast, checkTypes_cons_ok_iff _ _ _ _ _ _ (by omega) (by omega) (by omega)] at this
+        obtain ⟨a1, a2, a3, a4, a5, a6, a7⟩ := this
+        rw [checkTypes_cons_ok_iff _ _ _ _ _ _ (by omega) (by omega) (by omega)]
+        refine ⟨a1, a2, rfl, by simp only; omega, by simp only; omega, a6, ?_⟩
+        simp only
+        have : (idx : Int) + (g.num + 1) = (idx : Int) + 1 + g.num := by omega
+        rw [this]; exact a7
+      · rw [if_neg hsame]
+        have hlt0 : it.typeId < r0.typeId := by
+          have h1 := hhead r0 (by rw [hr]; exact List.mem_cons_self ..)
+          have : (r0.typeId : Int) ≠ (it.typeId : Int) := by rw [← hgt]; exact hsame
+          omega
+        have hlt : ∀ it' ∈ rest, (it.typeId : Int) < (it'.typeId : Int) := by
+          intro it' h'
+          rw [hr] at h' hsort'
+          cases h' with
+          | head => omega
+          | tail _ hm => have := (List.pairwise_cons.1 hsort').1 it' hm; omega
+        have := ih (idx + 1) (some (it.typeId : Int)) (seen ++ [(it.typeId : Int)]) hsort' h16' hlen'
+          (fun p hp it' h' => by cases hp; exact hlt it' h')
+          (fun s hs it' h' => by
+            rcases List.mem_append.1 hs with h1 | h1
+            · exact hseen s h1 it' (List.mem_cons_of_mem _ h')
+            · simp at h1; subst h1; exact hlt it' h')
+        rw [hG] at this
+        rw [checkTypes_cons_ok_iff _ _ _ _ _ _ (by omega) (by omega) (by omega)]
+        refine ⟨⟨by simp, by simp; omega⟩, hnp, rfl, by simp, by simp only; omega, hsc, ?_⟩
+        simp only
+        have hcast : ((idx + 1 : Nat) : Int) = (idx : Int) + 1 := by omega
+        rw [← hcast]; exact this
+
+
+/-- every entry of the writer's type table covers a run of items of its type -/
+def Covers (items : List Item) (idx : Nat) (t : ItemType) : Prop :=
+  ∃ a n : Nat, t.start = ((idx + a : Nat) : Int) ∧ t.num = (n : Int) ∧ a + n ≤ items.length
+    ∧ ∀ j, j < n → ∃ it, items[a + j]? = some it ∧ (it.typeId : Int) = t.typeId
+
+theorem covers_shift {it : Item} {rest : List Item} {idx : Nat} {t : ItemType}
+    (h : Covers rest (idx + 1) t) : Covers (it :: rest) idx t := by
+  obtain ⟨a, n, h1, h2, h3, h4⟩ := h
+  refine ⟨a + 1, n, by rw [h1]; congr 1; omega, h2, by simp; omega, ?_⟩
+  intro j hj
+  obtain ⟨it', hi, ht⟩ := h4 j hj
+  refine ⟨it', ?_, ht⟩
+  have : a + 1 + j = (a + j) + 1 := by omega
+  rw [this, List.getElem?_cons_succ]; exact hi
+
+theorem groupTypes_covers : ∀ (items : List Item) (idx : Nat), ∀ t ∈ groupTypes items idx, Covers items idx t := by
+  intro items
+  induction items with
+  | nil => intro idx t ht; simp [groupTypes] at ht
+  | cons it rest ih =>
+    intro idx t ht
+    simp only [groupTypes] at ht
+    have single : Covers (it :: rest) idx { typeId := it.typeId, start := idx, num := 1 } :=
+      ⟨0, 1, rfl, rfl, by simp, fun j hj => by
+        have : j = 0 := by omega
+        subst this
+        exact ⟨it, rfl, rfl⟩⟩
+    cases hG : groupTypes rest (idx + 1) with
+    | nil =>
+      rw [hG] at ht
+      simp only [List.mem_singleton] at ht
+      subst ht; exact single
+    | cons g gs =>
+      rw [hG] at ht
+      simp only at ht
+      have hgmem : ∀ t' ∈ g :: gs, Covers rest (idx + 1) t' := fun t' h' => ih (idx + 1) t' (by rw [hG]; exact h')
+      split at ht
+      · rename_i hsame
+        cases ht with
+        | head =>
+          obtain ⟨a, n, h1, h2, h3, h4⟩ := hgmem g (List.mem_cons_self ..)
+          obtain ⟨r0, rest', hr⟩ : ∃ r0 rest', rest = r0 :: rest' := by
+            cases rest with
+            | nil => simp [groupTypes] at hG
+            | cons r0 rest' => exact ⟨r0, rest', rfl⟩
+          obtain ⟨g', gs', hg', _, hgs⟩ := groupTypes_head r0 rest' (idx + 1)
+          rw [← hr, hG] at hg'
+          cases hg'
+          have ha : a = 0 := by rw [hgs] at h1; omega
+          subst ha
+          refine ⟨0, n + 1, rfl, by simp only; omega, by simp; omega, ?_⟩
+          intro j hj
+          cases j with
+          | zero => exact ⟨it, rfl, hsame.symm⟩
+          | succ j =>
+            obtain ⟨it', hi, hty⟩ := h4 j (by omega)
+            refine ⟨it', ?_, hty⟩
+            simp only [Nat.zero_add] at hi ⊢
+            rw [List.getElem?_cons_succ]; exact hi
+        | tail _ hm => exact covers_shift (hgmem t (List.mem_cons_of_mem _ hm))
+      · cases ht with
+        | head => exact single
+        | tail _ hm => exact covers_shift (hgmem t hm)
+
+
+
+/-! ### words that do not fit an `i32` wrap around; the item area as words -/
+
+/-- what reading back a written word yields: the value modulo 2^32 as an `i32` -/
+def wrapI32 (v : Int) : Int :=
+  if v % 4294967296 < 2147483648 then v % 4294967296 else v % 4294967296 - 4294967296
+
+theorem wrapI32_of_in {v : Int} (h : InI32 v) : wrapI32 v = v := by
+  unfold InI32 at h; unfold wrapI32; split <;> omega
+
+theorem i32OfBytes_bytesOfI32_wrap (v : Int) :
+    ∃ a b c d, bytesOfI32 v = [a, b, c, d] ∧ i32OfBytes a b c d = wrapI32 v := by
+  refine ⟨_, _, _, _, rfl, ?_⟩
+  unfold i32OfBytes wrapI32
+  simp only [u8_toNat_ofNat_mod]
+  have hn : ((v % 4294967296).toNat : Int) = v % 4294967296 := by omega
+  split <;> split <;> omega
+
+theorem wordsOfBytes_bytesOfWords_wrap_append :
+    ∀ (ws : List Int) (rest : List UInt8),
+      wordsOfBytes (bytesOfWords ws ++ rest) = ws.map wrapI32 ++ wordsOfBytes rest
+  | [], rest => by simp [bytesOfWords]
+  | w :: ws, rest => by
+    obtain ⟨a, b, c, d, hb, hv⟩ := i32OfBytes_bytesOfI32_wrap w
+    simp only [bytesOfWords, hb, List.cons_append, List.nil_append, wordsOfBytes, hv, List.map_cons]
+    rw [wordsOfBytes_bytesOfWords_wrap_append ws rest]
+
+theorem wordsOfBytes_bytesOfWords_wrap (ws : List Int) :
+    wordsOfBytes (bytesOfWords ws) = ws.map wrapI32 := by
+  have := wordsOfBytes_bytesOfWords_wrap_append ws []
+  simpa [wordsOfBytes] using this
+
+theorem bytesOfWords_append : ∀ (a b : List Int), bytesOfWords (a ++ b) = bytesOfWords a ++ bytesOfWords b
+  | [], b => rfl
+  | x :: a, b => by simp [bytesOfWords, bytesOfWords_append a b]
+
+/-- the words of one item as written -/
+def itemWords (it : Item) : List Int :=
+  ((it.typeId * 65536 + it.id : Nat) : Int) :: ((4 * it.data.length : Nat) : Int) :: it.data
+
+theorem itemBytes_eq (it : Item) : itemBytes it = bytesOfWords (itemWords it) := by
+  simp [itemBytes, itemWords, bytesOfWords, List.append_assoc]
+
+theorem concatBytes_items (items : List Item) :
+    concatBytes (items.map itemBytes) = bytesOfWords (items.flatMap itemWords) := by
+  induction items with
+  | nil => rfl
+  | cons it items ih =>
+    simp only [List.map_cons, concatBytes, List.flatMap_cons, bytesOfWords_append, ih, itemBytes_eq]
+
+/-- the words of one item as read back -/
+def itemWordsR (it : Item) : List Int :=
+  wrapI32 ((it.typeId * 65536 + it.id : Nat) : Int) :: ((4 * it.data.length : Nat) : Int) :: it.data
+
+theorem map_wrapI32_of_in : ∀ (ws : List Int), (∀ w ∈ ws, InI32 w) → ws.map wrapI32 = ws
+  | [], _ => rfl
+  | w :: ws, h => by
+    simp only [List.map_cons]
+    rw [wrapI32_of_in (h w (List.mem_cons_self ..)),
+      map_wrapI32_of_in ws (fun w' h' => h w' (List.mem_cons_of_mem _ h'))]
+
+theorem itemWords_wrap {it : Item} (hd : ∀ w ∈ it.data, InI32 w) (hl : 4 * it.data.length ≤ 2147483647) :
+    (itemWords it).map wrapI32 = itemWordsR it := by
+  simp only [itemWords, itemWordsR, List.map_cons]
+  rw [wrapI32_of_in (v := ((4 * it.data.length : Nat) : Int)) (by unfold InI32; omega),
+    map_wrapI32_of_in _ hd]
+
 
 end Tw.Datafile
